@@ -64,17 +64,22 @@ def run(ctx):
     inputs += corpus_gen.gen_inputs(ctx.rng, ctx.budget(1500, 30000))
     compare_budget = ctx.budget(90, 2500)
     args, outs = [], {}
+    hangs = 0
     for i, data in enumerate(inputs):
         if len(data) > 20000:
+            continue
+        if hangs >= 8:
+            ctx.count("scans_skipped_after_8_hangs")     # every further hanging scan would cost the watchdog again; 8 concrete hanging inputs are reported
             continue
         depth = 10 if i < len(MALFORMED) + 3 + len(DEEP) else ctx.rng.choice([-1, 0, 1, 2, 3, 10, 10, 10])
         with ToolRecorder() as rec:
             try:
-                tree = with_timeout(lambda: md.scan(data, depth), 30)
+                tree = with_timeout(lambda: md.scan(data, depth), 30 if hangs == 0 else 6)
                 # (the harness's own canonicaliser recurses: not used on trees deeper than the interpreter allows - those are not compared with the model)
                 out = ["ok", node_val(tree) if tree_height(tree) < 400 else None]
             except ScanTimeout:
                 out, tree = ["hang"], None
+                hangs += 1
             except RecursionError:
                 out, tree = ["raise", "RecursionError"], None
             except Exception as ex:  # noqa: BLE001
